@@ -365,6 +365,15 @@ class RewriteRule(Pattern):
                 f"Number of outputs from replacement function does not match the number of outputs from the target pattern. "
                 f"Expected {self._target_pattern.num_outputs}, but got {len(replacement_subgraph.new_outputs)}."
             )
+        if self.remove_nodes:
+            # A pattern variable may be bound to a value computed by a matched node. The
+            # replacement then consumes a value whose producer is about to be removed:
+            # such a match cannot be rewritten.
+            removed_nodes = set(match.nodes)
+            for new_node in replacement_subgraph.new_nodes:
+                for value in new_node.inputs:
+                    if value is not None and value.producer() in removed_nodes:
+                        return None
         # TODO(rama): Remove the opset imports from deleted nodes?
         _update_opset_imports(graph_or_function, replacement_subgraph)
         _update_opset_imports(model.graph, replacement_subgraph)
